@@ -441,6 +441,7 @@ func c02Exec(t *testing.T, sc *gen.Scenario, trace bool) *harness.Outcome {
 				return
 			}
 			e.cleanup = e2.cleanup
+			e.LoEngine = int(c.loEngine)
 			answers[ci] = make([]c02ans, len(sc.Requests))
 			conc := int(sc.Knob("conc", 1))
 			one := func(i int, rq gen.Request, suffix string) c02ans {
@@ -638,7 +639,18 @@ func c03Exec(t *testing.T, sc *gen.Scenario, trace bool) *harness.Outcome {
 				}
 			}
 			if kind == "object" {
+				e.SigExtra = " v2"
+				if SelfRecursiveUsersetUnion(sc.Model, rm.ObjType(rq.Obj), rq.Rel) {
+					e.SigExtra += " reaches_self_recursive_userset_in_union"
+				}
+				if ReachesMutualRecursion(sc.Model, rm.ObjType(rq.Obj), rq.Rel) {
+					e.SigExtra += " reaches_mutually_recursive_relations"
+				}
+				if ReachesKind(sc.Model, rm.ObjType(rq.Obj), rq.Rel, rm.Difference) {
+					e.SigExtra += " reaches_exclusion"
+				}
 				e.JudgeCheck("v2", rq, st, a2, err2, faulty)
+				e.SigExtra = ""
 				if e.Out.Violation != nil {
 					return
 				}
@@ -680,7 +692,26 @@ func c03Exec(t *testing.T, sc *gen.Scenario, trace bool) *harness.Outcome {
 					simrt.Probe("divergence_reported")
 					continue
 				}
-				e.Violate("unreported_divergence", fmt.Sprintf("subj=%s v1=%v v2=%v %s", kind, a1, a2, shapeSig(sc.Model, rq)), "check(%s#%s@%s ctx=%v): weighted-graph path answered %v, default engine %v, and the breaking-change detector did not report it (warnings: %v)", rq.Obj, rq.Rel, rq.User, rq.Ctx, a2, a1, warns)
+				tag := ""
+				if kind == "userset" && a1 && !a2 {
+					with, _ := st.Check(rq.Obj, rq.Rel, rq.User, rq.Ctx)
+					st2 := stateFor(sc, rq)
+					st2.NoReflexive = true
+					without, _ := st2.Check(rq.Obj, rq.Rel, rq.User, rq.Ctx)
+					if with == rm.True && without == rm.False && rq.User != rq.Obj+"#"+rq.Rel {
+						tag = " true_only_by_userset_reflexivity_reached_indirectly"
+					} else {
+						ut, _, ur := rm.SplitUser(rq.User)
+						if r := sc.Model.Rel(ut, ur); r != nil {
+							for _, res := range r.Restrictions {
+								if res.Type == ut && res.Relation == ur {
+									tag = " subject_relation_is_self_recursive_userset"
+								}
+							}
+						}
+					}
+				}
+				e.Violate("unreported_divergence", fmt.Sprintf("subj=%s v1=%v v2=%v %s%s", kind, a1, a2, shapeSig(sc.Model, rq), tag), "check(%s#%s@%s ctx=%v): weighted-graph path answered %v, default engine %v, and the breaking-change detector did not report it (warnings: %v)", rq.Obj, rq.Rel, rq.User, rq.Ctx, a2, a1, warns)
 				return
 			} else if reported {
 				simrt.Probe("detector_fired_without_divergence")
@@ -754,9 +785,7 @@ type anyAns struct {
 }
 
 func (e *Env) issue(ctx context.Context, s *server.Server, storeID string, rq gen.Request) anyAns {
-	old := e.StoreID
-	e.StoreID = storeID
-	defer func() { e.StoreID = old }()
+	rq.Store = storeID
 	switch rq.Kind {
 	case "check":
 		a, err := e.SrvCheck(ctx, s, rq)
